@@ -8,7 +8,7 @@
     `Ly.decimal_append_noverb`
 -/
 import D128.Proofs.LayoutMain
-import D128.Proofs.DigitsParse
+import D128.Proofs.DigitsParseBound
 
 set_option autoImplicit false
 set_option maxRecDepth 4096
@@ -328,19 +328,20 @@ theorem append_unfold (d : Decimal) (buf spec : Go.Bytes) (hs : spec.size < 2 ^ 
 
 /-- **`Decimal.Append` on a finite value** is `buf ++ fmtSpec (parsed spec)`: for every byte string
 `spec` whose parse (`Dg.parseSpec`, = `parseFormat` by `C07.parseFormat_spec`) ends in one of the six
-float verbs and has a precision below `2^56` (absent included). -/
+float verbs (the precision is absent or below `10^6` for every byte string: `Dg.precOK_parseSpec`). -/
 theorem decimal_append_finite (d : Decimal) (buf spec : Go.Bytes)
     (hfin : Decimal.isSpecial d = false) (hs : spec.size < 2 ^ 63) (hb : buf.size < 2 ^ 61)
     (hv : (parseSpec spec.toList).verb = 101 ∨ (parseSpec spec.toList).verb = 69 ∨
       (parseSpec spec.toList).verb = 102 ∨ (parseSpec spec.toList).verb = 70 ∨
-      (parseSpec spec.toList).verb = 103 ∨ (parseSpec spec.toList).verb = 71)
-    (hprec : (parseSpec spec.toList).prec.toInt < 2 ^ 56) :
+      (parseSpec spec.toList).verb = 103 ∨ (parseSpec spec.toList).verb = 71) :
     ∃ r, Decimal.Append d buf spec = .ok r ∧
       bstr r = bstr buf ++ Spec.fmtSpec (flagsOf (parseSpec spec.toList))
         (chr (parseSpec spec.toList).verb) (precOf (parseSpec spec.toList))
         (some (parseSpec spec.toList).wid.toInt.toNat) (Decimal.Signbit d)
         (Spec.sliceOf (coefOf d) (expoOf d)) := by
   obtain ⟨hw0, hw1, hprz⟩ := argsOK_parseSpec spec.toList
+  have hprec : (parseSpec spec.toList).prec.toInt < 2 ^ 56 := by
+    rcases precOK_parseSpec spec.toList with h | h <;> omega
   generalize hpa : parseSpec spec.toList = a at *
   obtain ⟨r, hr, hstr⟩ := format_spec d buf a hfin hv hprec a.wid.toInt.toNat (by omega) (by omega)
     hb hprz
